@@ -378,4 +378,54 @@ theorem form_restart {keep : Nat} (hk : 1 ≤ keep) (junk : Folder α) (d : Dirs
       split_ifs <;> first | rfl | omega | (congr 1; omega)
   | final => simp [finalForm] at hcd
 
+/-- all steps of the rotation: the final form -/
+theorem backup_all (junk : Folder α) {keep : Nat} (hk : 1 ≤ keep) (d : Dirs α) (f : Folder α) (hd : d.data = some f) :
+    applySteps junk d (backupSteps keep d) = finalForm keep d := by
+  have hform := backup_forms junk keep d (backupSteps keep d).length
+  unfold crashAt at hform
+  rw [List.take_length] at hform
+  have hdata : (applySteps junk d (backupSteps keep d)).data = none := by
+    simp only [backupSteps, applySteps_append]
+    rfl
+  rcases (form_facts hk junk d f hd _ hform).2.2.2 with h | h
+  · rw [hdata] at h; cases h
+  · exact h
+
+theorem crashAt_ge (junk : Folder α) (d : Dirs α) (l : List (FsStep α)) (k : Nat) (h : l.length ≤ k) :
+    crashAt junk d l k = applySteps junk d l := by
+  unfold crashAt
+  rw [List.take_of_length_le h]
+
+/-! ### the peerstore file -/
+
+theorem foldl_writeTmp (fl : Option (List Line)) : ∀ (L t : List Line),
+    (L.map PStep.writeTmp).foldl applyP { file := fl, tmp := some t } = { file := fl, tmp := some (t ++ L) } := by
+  intro L
+  induction L with
+  | nil => intro t; simp
+  | cons x L ih =>
+    intro t
+    simp only [List.map_cons, List.foldl_cons, applyP, Option.map_some]
+    rw [ih]
+    simp
+
+theorem foldl_keeps_file : ∀ (l : List PStep) (f : PFiles), (∀ s ∈ l, s = PStep.createTmp ∨ ∃ x, s = PStep.writeTmp x) →
+    (l.foldl applyP f).file = f.file := by
+  intro l
+  induction l with
+  | nil => intro f _; rfl
+  | cons s l ih =>
+    intro f h
+    simp only [List.foldl_cons]
+    rw [ih _ (fun s' hs' => h s' (List.mem_cons_of_mem _ hs'))]
+    rcases h s List.mem_cons_self with rfl | ⟨x, rfl⟩ <;> rfl
+
+/-- the whole save from any state of the two files -/
+theorem psave_all (f : PFiles) (pinfos : List (Nat × List Nat)) :
+    (psaveSteps pinfos).foldl applyP f = { file := some (save pinfos), tmp := none } := by
+  unfold psaveSteps
+  simp only [List.foldl_append, List.foldl_cons, List.foldl_nil, applyP]
+  rw [foldl_writeTmp]
+  simp
+
 end CV.C14
